@@ -10,8 +10,10 @@ const RaceEnabled = false
 func raceDisable() {}
 func raceEnable()  {}
 
-func RaceAcquire(p unsafe.Pointer)      {}
-func RaceRelease(p unsafe.Pointer)      {}
-func RaceReleaseMerge(p unsafe.Pointer) {}
-func RaceRead(p unsafe.Pointer)         {}
-func RaceWrite(p unsafe.Pointer)        {}
+func RaceAcquire(p unsafe.Pointer)           {}
+func RaceRelease(p unsafe.Pointer)           {}
+func RaceReleaseMerge(p unsafe.Pointer)      {}
+func RaceRead(p unsafe.Pointer)              {}
+func RaceWrite(p unsafe.Pointer)             {}
+func RaceReadRange(p unsafe.Pointer, n int)  {}
+func RaceWriteRange(p unsafe.Pointer, n int) {}
